@@ -26,7 +26,7 @@ def constants(**over):
 def conf_of(consts):
   """What the replay driver needs to know about a config (plain JSON types)."""
   return {'Studies': sorted(consts['Studies']), 'Clients': sorted(consts['Clients']), 'MaxId': consts['MaxId'],
-          'Cells': sorted(consts['Cells']), 'Recycle': consts['Recycle']}
+          'Cells': sorted(consts['Cells']), 'Recycle': consts['Recycle'], 'SharedStudyId': bool(consts.get('SharedStudyId'))}
 
 
 def check_and_dump(consts, workdir, dump=True, coverage=False, timeout=3600, workers=None, name='A'):
@@ -36,6 +36,7 @@ def check_and_dump(consts, workdir, dump=True, coverage=False, timeout=3600, wor
   shortest history per state and the depth cut is deterministic.
   """
   cfg = os.path.join(workdir, name + '.cfg')
+  consts = {k: v for k, v in consts.items() if k != 'SharedStudyId'}     # a binding option, not a model constant
   tlc.write_cfg(cfg, constants=consts, invariants=INVARIANTS, properties=PROPERTIES,
                 constraints=(['Dump'] if dump else []), view='View')
   res = tlc.run_tlc('VizierService', cfg, workdir, workers=workers or 1, coverage=coverage, timeout=timeout)
